@@ -305,10 +305,17 @@ def request(pt_ref, params: dict, cm, mm, spec: Optional[dict] = None) -> str:
     return sx(fields)
 
 
+def _field(lst, name):
+    for x in lst:
+        if isinstance(x, list) and x and x[0] == name:
+            return x[1:]
+    return None
+
+
 def parse_reply(ans) -> dict:
     if ans and ans[0] == 'err':
         raise core.MachineryError('driver rejected a C03 request: %r' % (ans,))
-    f = lambda name: ptgen._field(ans, name)  # noqa
+    f = lambda name: _field(ans, name)  # noqa
     oc = f('outcome')[0]
     outcome = {'status': oc} if isinstance(oc, str) else {'status': 'error', 'error': oc[1]}
     cons = []
@@ -683,10 +690,61 @@ def evaluate_given(cases: List[dict]) -> List[dict]:
     return recs
 
 
+def _spec_candidates(spec: dict) -> List[dict]:
+    """smaller spec trees: a node replaced by one of its children, sequence parts dropped, measurements dropped,
+    counts and ranges simplified"""
+    out: List[dict] = []
+
+    def rec(node, rebuild):
+        for c in ptgen.children(node):
+            out.append(rebuild(copy.deepcopy(c)))
+        k = node['k']
+        if k in ('seq', 'amulti') and len(node['subs']) > 1:
+            for i in range(len(node['subs'])):
+                n = copy.deepcopy(node)
+                del n['subs'][i]
+                out.append(rebuild(n))
+        if node.get('meas'):
+            n = copy.deepcopy(node)
+            n['meas'] = []
+            out.append(rebuild(n))
+        if k == 'rep' and node['count'] not in ('1', '2'):
+            for cnt in ('1', '2'):
+                n = copy.deepcopy(node)
+                n['count'] = cnt
+                out.append(rebuild(n))
+        if k == 'for' and node['range'] != ['0', '2', '1']:
+            n = copy.deepcopy(node)
+            n['range'] = ['0', '2', '1']
+            out.append(rebuild(n))
+        if k in ('seq', 'amulti'):
+            for i, c in enumerate(node['subs']):
+                def rb(x, i=i, node=node):
+                    n = copy.deepcopy(node)
+                    n['subs'][i] = x
+                    return rebuild(n)
+                rec(c, rb)
+        elif k == 'aarith':
+            for key in ('lhs', 'rhs'):
+                def rb(x, key=key, node=node):
+                    n = copy.deepcopy(node)
+                    n[key] = x
+                    return rebuild(n)
+                rec(node[key], rb)
+        elif 'body' in node:
+            def rb(x, node=node):
+                n = copy.deepcopy(node)
+                n['body'] = x
+                return rebuild(n)
+            rec(node['body'], rb)
+
+    rec(spec, lambda x: x)
+    return out
+
+
 def _shrink_candidates(case: dict) -> List[dict]:
-    import c01
     out = []
-    for s in c01._candidates(case['spec'])[:80]:
+    for s in _spec_candidates(case['spec'])[:80]:
         c = copy.deepcopy(case)
         c['spec'] = s
         out.append(c)
